@@ -3,7 +3,7 @@ import TunnoxModel.Spec.C10
 /-!
 Line protocol for C10.
 
-  st  <tail> rw <0|1> me <hex> ev <n> <event>*n ch <k> <size>*k rd <m> <size>*m
+  st  <tail> rw <0|1> [tk <nil | n (<keyhex> <a|c>)*n> pre <m>] me <hex> ev <n> <event>*n ch <k> <size>*k rd <m> <size>*m
         event:  w <len> <seed> | cw | cl | f <tidhex> <ty> <len> <seed>
       obs:  wr <k> (ok:<n>|closed|err:<n>)*k rd <j> (x:<n>|d:<hex>|eof|err:<kind>|fuel)*j rb <0|1> wb <0|1>
             (x:<n> = the next n bytes of the case's reference stream, see `refStream`)
@@ -67,23 +67,56 @@ def parseEvents : Nat → List String → Option (List Ev × List String)
     pure (.inject tid ty (genBytes l s) :: r, ts')
   | _, _ => none
 
+/-- `<keyhex> <a|c>` pairs of the scripted tracker double: the string `IsTunnelClosed` is asked about,
+and whether that tunnel is closed (`c`) or still active (`a`); unlisted strings are unknown (not closed). -/
+def parseTrk : Nat → List String → Option (List (Bytes × Bool) × List String)
+  | 0, ts => some ([], ts)
+  | n + 1, k :: st :: ts => do
+    let k ← bytesOfHex k
+    if st != "a" && st != "c" then none
+    let (r, ts') ← parseTrk n ts
+    pure ((k, st == "c") :: r, ts')
+  | _, _ => none
+
+def trackerOf (tbl : Option (List (Bytes × Bool))) : Tracker :=
+  tbl.map (fun t => fun s => t.any (fun e => e.1 == s && e.2))
+
 structure StCase where
   tail : Tail
   rw : Bool
+  trk : Option (List (Bytes × Bool))   -- none = NewFrameStream, some = NewFrameStreamWithTracker
   me : Bytes
   evs : List Ev
   chunks : List Nat
   reads : List Nat
 
-def parseSt : List String → Option StCase
-  | tl :: "rw" :: rw :: "me" :: me :: "ev" :: n :: ts => do
-    let tail ← tailOfString tl
+def parseStRest (tail : Tail) (rw : Bool) (trk : Option (List (Bytes × Bool))) : List String → Option StCase
+  | "me" :: me :: "ev" :: n :: ts => do
     let me ← bytesOfHex me
     let n ← n.toNat?
     let (evs, ts) ← parseEvents n ts
     let (ch, ts) ← parseSizes "ch" ts
     let (rd, _) ← parseSizes "rd" ts
-    pure ⟨tail, rw == "1", me, evs, ch, rd⟩
+    pure ⟨tail, rw, trk, me, evs, ch, rd⟩
+  | _ => none
+
+/-- `tk nil | tk <n> (<keyhex> <a|c>)*n`, then `pre <m>` (the receiving stream is created only after the
+first `m` events are on the connection — pure timing, invisible to the model: a `Src` holds all bytes
+that will ever arrive), then the rest.  Without a `tk` segment: `NewFrameStream`, `pre 0`. -/
+def parseSt : List String → Option StCase
+  | tl :: "rw" :: rw :: "tk" :: "nil" :: "pre" :: _ :: ts => do
+    let tail ← tailOfString tl
+    parseStRest tail (rw == "1") none ts
+  | tl :: "rw" :: rw :: "tk" :: n :: ts => do
+    let tail ← tailOfString tl
+    let n ← n.toNat?
+    let (tbl, ts) ← parseTrk n ts
+    match ts with
+    | "pre" :: _ :: ts => parseStRest tail (rw == "1") (some tbl) ts
+    | _ => none
+  | tl :: "rw" :: rw :: ts => do
+    let tail ← tailOfString tl
+    parseStRest tail (rw == "1") none ts
   | _ => none
 
 def parseFramesGen : Nat → List String → Option (List Frame × List String)
@@ -212,7 +245,7 @@ def cutWire (sizes : List Nat) (b : Bytes) : List Bytes :=
   chunkBy (sizes ++ List.replicate (b.length / 4096 + 1) 4096) b
 
 def modelSt (c : StCase) : StObs :=
-  runStream c.me c.evs (cutWire c.chunks) c.tail c.rw c.reads
+  runStream (trackerOf c.trk) c.me c.evs (cutWire c.chunks) c.tail c.rw c.reads
 
 structure DecCase where
   tail : Tail
